@@ -474,6 +474,20 @@ fn cmd_fault(m: &HashMap<String, String>) -> i32 {
                 positions.push(occ[occ.len() - 1]);
                 positions.push(occ[(occ.len() * 5 / 8).min(occ.len() - 1)]);
             }
+            // ... and for every table file one of the writes of its FINAL part (what
+            // TableBuilder::finalize writes after the last data block), a different one per file;
+            // all of them for the last two files (usually compaction outputs)
+            let nt = reference.table_tails.len();
+            for (ti, tail) in reference.table_tails.iter().enumerate() {
+                if tail.is_empty() {
+                    continue;
+                }
+                if ti + 2 >= nt {
+                    positions.extend(tail.iter().cloned());
+                } else {
+                    positions.push(tail[ti % tail.len()]);
+                }
+            }
             positions.sort_unstable();
             positions.dedup();
         }
